@@ -721,6 +721,15 @@ theorem monitor_sound (tr : Trace) (j : Nat) (cl : Clause) (h : runMon tr = some
   | instOutcome out => exact sound_instOutcome tr j out hf
   | instNoExchange => exact sound_instNoExchange tr j hf
 
+/-- Challenge stream: "ParseWWWAuthenticate does not panic on any header value"; the clause fires
+only on an observation other than `nopanic`. -/
+def P_no_panic (impl : String) : Prop := impl = fuzzOk
+
+theorem sound_fuzz (impl : String) (h : chkFuzz impl = true) : ¬ P_no_panic impl := by
+  simpa [chkFuzz, P_no_panic] using h
+
+example : chkFuzz "panic" = true := by decide
+
 /-! ## Completeness: a silent monitor run means every clause holds
 
 The converse of `monitor_sound`, so that the predicates above are exactly what the monitor decides:
